@@ -607,12 +607,20 @@ func c01Client(w *c01World, c *c01Case) (s c01Side) {
 
 // c01Station runs the real station path for the registration the client would send.
 func c01Station(w *c01World, c *c01Case, wire proto.Message) (s c01Side, modelIdent []byte) {
+	return c01StationOn(w, c, wire, true)
+}
+
+// c01StationOn: with installSelector = false the manager's selector is left as it stands (concurrent phase:
+// installed once, then only read, as in a running station)
+func c01StationOn(w *c01World, c *c01Case, wire proto.Message, installSelector bool) (s c01Side, modelIdent []byte) {
 	defer func() {
 		if p := recover(); p != nil {
 			s = c01Side{kind: "panic", err: fmt.Sprint(p)}
 		}
 	}()
-	w.rm.PhantomSelector = c.cfg.selector()
+	if installSelector {
+		w.rm.PhantomSelector = c.cfg.selector()
+	}
 	tt := c01TransportType[c.transport]
 	ver, gen := uint32(c.ver), uint32(c.gen)
 	covert := "1.2.3.4:56789"
@@ -1003,6 +1011,10 @@ func TestVerifC01(t *testing.T) {
 	}
 	// 3. client-side API histories and registrar responses (zz_verif_c01_hist_test.go)
 	c01Histories(t, out, w, vlib.NewRand("C01-histories"))
+	// 4. secrets whose rejection-sampled draws start on a bound; 5. concurrent station-side derivation
+	// (zz_verif_c01_r4_test.go)
+	c01Boundaries(t, out, w)
+	c01Concurrent(t, out, w, vlib.NewRand("C01-concurrent"))
 }
 
 // c01Fresh replaces the secret by one that comes out of the real client key exchange (crypto/rand
@@ -1090,6 +1102,8 @@ func c01Replay(t *testing.T, out *vlib.Out, w *c01World, path string) {
 		switch f[0] {
 		case "C01HIST":
 			c01HistReplay(t, out, w, line)
+		case "C01CONC":
+			c01ConcReplay(t, out, w, line)
 		case "C01CASE":
 			if len(f) != 8 {
 				t.Fatalf("bad replay line %q", line)
